@@ -7,6 +7,7 @@ pub mod par;
 pub mod ctx;
 pub mod alloc_mon;
 pub mod miri;
+pub mod io;
 
 pub use ctx::{Ctx, Tier};
 pub use guard::{guard, PanicInfo};
